@@ -238,6 +238,61 @@ fn xmlser(inp: &str) {
     walk(&dom.document);
 }
 
+/// tag tokens (one per line: `tag <kind> <prefix|-> <local hex> {<prefix|-> <local hex> <value hex>}`) straight into the
+/// real XmlTreeBuilder over an RcDom; prints every element with its namespace and its attributes in document order
+fn xmltree(inp: &str) {
+    use markup5ever_rcdom::{Handle, NodeData, RcDom};
+    use xml5ever::tokenizer::{Tag, TagKind, Token, TokenSink};
+    use xml5ever::tree_builder::XmlTreeBuilder;
+    use xml5ever::{Attribute, LocalName, Namespace, Prefix, QualName};
+    fn s(h: &str) -> String {
+        String::from_utf8(unhex(h)).unwrap()
+    }
+    fn qn(p: &str, l: &str) -> QualName {
+        QualName::new(if p == "-" { None } else { Some(Prefix::from(&*s(p))) }, Namespace::from(""), LocalName::from(&*s(l)))
+    }
+    let tb = XmlTreeBuilder::new(RcDom::default(), Default::default());
+    for l in inp.lines() {
+        let f: Vec<&str> = l.split(' ').collect();
+        if f[0] != "tag" {
+            continue;
+        }
+        let kind = match f[1] {
+            "StartTag" => TagKind::StartTag,
+            "EndTag" => TagKind::EndTag,
+            "EmptyTag" => TagKind::EmptyTag,
+            "ShortTag" => TagKind::ShortTag,
+            x => panic!("kind {x}"),
+        };
+        let mut attrs = vec![];
+        let mut i = 4;
+        while i + 2 < f.len() {
+            attrs.push(Attribute { name: qn(f[i], f[i + 1]), value: StrTendril::from_slice(&s(f[i + 2])) });
+            i += 3;
+        }
+        tb.process_token(Token::Tag(Tag { kind, name: qn(f[2], f[3]), attrs }));
+    }
+    tb.process_token(Token::EndOfFile);
+    tb.end();
+    fn hx(b: &[u8]) -> String {
+        b.iter().map(|b| format!("{b:02x}")).collect::<String>()
+    }
+    fn walk(h: &Handle) {
+        if let NodeData::Element { name, attrs, .. } = &h.data {
+            let a: Vec<String> = attrs
+                .borrow()
+                .iter()
+                .map(|a| format!("{}:{}:{}={}", a.name.prefix.as_ref().map(|p| hx(p.as_bytes())).unwrap_or("-".into()), hx(a.name.ns.as_bytes()), hx(a.name.local.as_bytes()), hx(a.value.as_bytes())))
+                .collect();
+            println!("elem {}:{}:{} [{}]", name.prefix.as_ref().map(|p| hx(p.as_bytes())).unwrap_or("-".into()), hx(name.ns.as_bytes()), hx(name.local.as_bytes()), a.join(" "));
+        }
+        for c in h.children.borrow().iter() {
+            walk(c);
+        }
+    }
+    walk(&tb.sink.document);
+}
+
 /// raw byte chunks through the real tendril::stream::Utf8LossyDecoder: prints what the inner sink received and how
 /// many times error() was called
 fn decode(chunks: &[Vec<u8>]) {
@@ -327,13 +382,17 @@ fn main() {
             "inject" => inject = Some(String::from_utf8(unhex(v)).unwrap()),
             "content" => content = String::from_utf8(unhex(v)).unwrap(),
             "bytes" => raw_chunks.push(unhex(v)),
-            "ev" => {},
+            "ev" | "tag" => {},
             "" => {},
             x => panic!("directive {x}"),
         }
     }
     if mode == "xmlser" {
         xmlser(&inp);
+        return;
+    }
+    if mode == "xmltree" {
+        xmltree(&inp);
         return;
     }
     if mode == "decode" {
